@@ -26,11 +26,11 @@ fn fail(st: &mut Stats, prim: &str, class: &str, what: String, case: Value) {
 
 pub fn dry_generichash(outlen: usize, m: &[u8], key: Option<&[u8]>) -> Result<Vec<u8>, String> {
     guarded(AssertUnwindSafe(|| {
-        let mut a = vec![0u8; outlen];
+        let mut a = vec![0xC3u8; outlen];
         crypto_generichash(&mut a, m, key).map_err(|e| format!("{:?}", e))?;
         let mut st = crypto_generichash_init(key, outlen).map_err(|e| format!("{:?}", e))?;
         crypto_generichash_update(&mut st, m);
-        let mut b = vec![0u8; outlen];
+        let mut b = vec![0xC3u8; outlen];
         crypto_generichash_final(st, &mut b).map_err(|e| format!("{:?}", e))?;
         if a != b {
             return Err("one-shot and init/update/final disagree".to_string());
@@ -48,6 +48,16 @@ macro_rules! gh_object {
         h.update($m);
         let b: StackByteArray<$o> = h.finalize().unwrap();
         let mut same = a == b.as_slice();
+        {
+            // every finalising convenience of the incremental object, for this instantiation
+            let mut h2 = GenericHash::<$k, $o>::new(key.as_ref()).unwrap();
+            h2.update($m);
+            let v: Vec<u8> = h2.finalize_to_vec().unwrap();
+            let mut h3 = GenericHash::<$k, $o>::new(key.as_ref()).unwrap();
+            h3.update($m);
+            let w: Vec<u8> = h3.finalize().unwrap();
+            same &= a == v && a == w;
+        }
         if $k == 32 && $o == 32 {
             // the *_with_defaults conveniences exist for the default lengths only
             let k32: Option<[u8; 32]> = key.as_ref().map(|k| k.as_slice().try_into().unwrap());
@@ -106,7 +116,7 @@ pub fn replay(case: &Value) -> Option<String> {
         }
         "onetimeauth" => {
             let k: [u8; 32] = unhx(&case["key"]).try_into().unwrap();
-            let mut mac = [0u8; 16];
+            let mut mac = [0xC3u8; 16];
             crypto_onetimeauth(&mut mac, &m, &k);
             let want = sodium::onetimeauth(&m, &k);
             if mac == want {
@@ -117,7 +127,7 @@ pub fn replay(case: &Value) -> Option<String> {
         }
         "auth" => {
             let k: [u8; 32] = unhx(&case["key"]).try_into().unwrap();
-            let mut mac = [0u8; 32];
+            let mut mac = [0xC3u8; 32];
             crypto_auth(&mut mac, &m, &k);
             let want = sodium::auth(&m, &k);
             if mac == want {
@@ -127,7 +137,7 @@ pub fn replay(case: &Value) -> Option<String> {
             }
         }
         "sha512" => {
-            let mut d = [0u8; 64];
+            let mut d = [0xC3u8; 64];
             crypto_hash_sha512(&mut d, &m);
             if d == sodium::sha512(&m) {
                 None
@@ -137,7 +147,7 @@ pub fn replay(case: &Value) -> Option<String> {
         }
         "shorthash" => {
             let k: [u8; 16] = unhx(&case["key"]).try_into().unwrap();
-            let mut d = [0u8; 8];
+            let mut d = [0xC3u8; 8];
             crypto_shorthash(&mut d, &m, &k);
             if d == sodium::shorthash(&m, &k) {
                 None
@@ -240,7 +250,7 @@ pub fn run() -> i32 {
             let m = cval(seed, ci, len);
             // sha512 (no key)
             let want = sodium::sha512(&m);
-            let mut d = [0u8; 64];
+            let mut d = [0xC3u8; 64];
             crypto_hash_sha512(&mut d, &m);
             let o: StackByteArray<64> = Sha512::compute(&m);
             let ov = Sha512::compute_to_vec(&m);
@@ -264,7 +274,7 @@ pub fn run() -> i32 {
                 let k16: [u8; 16] = karr(seed ^ 0x7, ki);
                 // HMAC-SHA-512-256
                 let want = sodium::auth(&m, &k32);
-                let mut mac = [0u8; 32];
+                let mut mac = [0xC3u8; 32];
                 crypto_auth(&mut mac, &m, &k32);
                 let om: StackByteArray<32> = Auth::compute(k32, &m);
                 let ok = mac == want && om.as_slice() == &want[..] && Auth::compute_to_vec(k32, &m) == want && crypto_auth_verify(&want, &m, &k32).is_ok() && Auth::compute_and_verify(&want, k32, &m).is_ok();
@@ -274,7 +284,7 @@ pub fn run() -> i32 {
                 }
                 // Poly1305
                 let want = sodium::onetimeauth(&m, &k32);
-                let mut mac = [0u8; 16];
+                let mut mac = [0xC3u8; 16];
                 crypto_onetimeauth(&mut mac, &m, &k32);
                 let om: StackByteArray<16> = OnetimeAuth::compute(k32, &m);
                 let ok = mac == want && om.as_slice() == &want[..] && OnetimeAuth::compute_to_vec(k32, &m) == want && crypto_onetimeauth_verify(&want, &m, &k32).is_ok() && OnetimeAuth::compute_and_verify(&want, k32, &m).is_ok();
@@ -284,7 +294,7 @@ pub fn run() -> i32 {
                 }
                 // SipHash-2-4
                 let want8 = sodium::shorthash(&m, &k16);
-                let mut h = [0u8; 8];
+                let mut h = [0xC3u8; 8];
                 crypto_shorthash(&mut h, &m, &k16);
                 st.eval(&("sip", len, ci, ki), true, if h == want8 { "siphash==libsodium" } else { "siphash-differs" });
                 if h != want8 {
@@ -392,16 +402,16 @@ pub fn run() -> i32 {
                 ok &= o == want;
             }
         }
-        let mut d = [0u8; 64];
+        let mut d = [0xC3u8; 64];
         crypto_hash_sha512(&mut d, &m);
         ok &= d == sodium::sha512(&m);
-        let mut mac = [0u8; 32];
+        let mut mac = [0xC3u8; 32];
         crypto_auth(&mut mac, &m, &k32);
         ok &= mac == sodium::auth(&m, &k32);
-        let mut t16 = [0u8; 16];
+        let mut t16 = [0xC3u8; 16];
         crypto_onetimeauth(&mut t16, &m, &k32);
         ok &= t16 == sodium::onetimeauth(&m, &k32);
-        let mut h8 = [0u8; 8];
+        let mut h8 = [0xC3u8; 8];
         crypto_shorthash(&mut h8, &m, &k16);
         ok &= h8 == sodium::shorthash(&m, &k16);
         st.eval(&("big", len), true, if ok { "large-input==libsodium" } else { "large-input-differs" });
@@ -502,7 +512,7 @@ pub fn run() -> i32 {
             k[16..].copy_from_slice(s);
             for (mi, m) in msgs.iter().enumerate() {
                 let want = sodium::onetimeauth(m, &k);
-                let mut mac = [0u8; 16];
+                let mut mac = [0xC3u8; 16];
                 crypto_onetimeauth(&mut mac, m, &k);
                 st.eval(&("polyop", ri, si, mi), true, if mac == want { "poly1305-operand==libsodium" } else { "poly1305-operand-differs" });
                 if mac != want {
@@ -516,7 +526,7 @@ pub fn run() -> i32 {
                 // r = 1: constructed accumulators
                 for (ci, (m, name)) in constructed.iter().enumerate() {
                     let want = sodium::onetimeauth(m, &k);
-                    let mut mac = [0u8; 16];
+                    let mut mac = [0xC3u8; 16];
                     crypto_onetimeauth(&mut mac, m, &k);
                     st.eval(&("polyacc", si, ci), true, if mac == want { "poly1305-accumulator==libsodium" } else { "poly1305-accumulator-differs" });
                     st.bump("constructed_accumulator_cases", 1);
@@ -560,7 +570,7 @@ pub fn run() -> i32 {
                 x[12..].copy_from_slice(&d.to_le_bytes());
                 x
             });
-            let mut o = [0u8; 32];
+            let mut o = [0xC3u8; 32];
             crypto_core_hsalsa20(&mut o, i, k, *c);
             let want = sodium::hsalsa20(i, k, cb.as_ref());
             st.eval(&("hsalsa", n, c.is_some()), true, if o == want { "hsalsa20==libsodium" } else { "hsalsa20-differs" });
@@ -568,7 +578,7 @@ pub fn run() -> i32 {
                 fail(&mut st, "hsalsa20", "differs", format!("key {} input {} constants {:?}", hx(k), hx(i), c), json!({"prim": "hsalsa20", "msg": hx(i)}));
             }
             dump(json!({"p": "hsalsa20", "k": hx(k), "i": hx(i), "c": cb.map(|c| hx(&c)), "out": hx(&o)}));
-            let mut o = [0u8; 32];
+            let mut o = [0xC3u8; 32];
             crypto_core_hchacha20(&mut o, i, k, *c);
             let want = sodium::hchacha20(i, k, cb.as_ref());
             st.eval(&("hchacha", n, c.is_some()), true, if o == want { "hchacha20==libsodium" } else { "hchacha20-differs" });
@@ -642,30 +652,30 @@ pub fn run() -> i32 {
             t.push((if name == "m1k1" { "GenericHash<32,64> #1" } else { "GenericHash<32,64> #2" }, Box::new(move || gh_object(32, 64, &a, Some(&k[..])).unwrap_or_default())));
             let a = m.clone();
             t.push((if name == "m1k1" { "sha512 #1" } else { "sha512 #2" }, Box::new(move || {
-                let mut d = [0u8; 64];
+                let mut d = [0xC3u8; 64];
                 crypto_hash_sha512(&mut d, &a);
                 d.to_vec()
             })));
             let a = m.clone();
             t.push((if name == "m1k1" { "auth #1" } else { "auth #2" }, Box::new(move || {
-                let mut d = [0u8; 32];
+                let mut d = [0xC3u8; 32];
                 crypto_auth(&mut d, &a, &k);
                 d.to_vec()
             })));
             let a = m.clone();
             t.push((if name == "m1k1" { "onetimeauth #1" } else { "onetimeauth #2" }, Box::new(move || {
-                let mut d = [0u8; 16];
+                let mut d = [0xC3u8; 16];
                 crypto_onetimeauth(&mut d, &a, &k);
                 d.to_vec()
             })));
             let a = m.clone();
             t.push((if name == "m1k1" { "shorthash #1" } else { "shorthash #2" }, Box::new(move || {
-                let mut d = [0u8; 8];
+                let mut d = [0xC3u8; 8];
                 crypto_shorthash(&mut d, &a, k[..16].try_into().unwrap());
                 d.to_vec()
             })));
             t.push((if name == "m1k1" { "hsalsa20 #1" } else { "hchacha20 #2" }, Box::new(move || {
-                let mut d = [0u8; 32];
+                let mut d = [0xC3u8; 32];
                 if name == "m1k1" {
                     crypto_core_hsalsa20(&mut d, k[..16].try_into().unwrap(), &k, None);
                 } else {
